@@ -12,6 +12,7 @@ import datetime
 import fractions
 import functools
 import math
+import re
 import zoneinfo
 
 from ..common import canon_flat
@@ -363,3 +364,29 @@ def instant_text(instant_utc, offset_minutes, zulu=False):
         return text + 'Z'
     sign = '-' if offset_minutes < 0 else '+'
     return f'{text}{sign}{abs(offset_minutes) // 60:02d}:{abs(offset_minutes) % 60:02d}'
+
+
+_EDGE_TEXT = re.compile(r'^(\d{4})-(\d{2})-(\d{2})T(\d{2}):(\d{2}):(\d{2})(Z|[+-]\d{2}:\d{2})$')
+_FIRST_SECOND = datetime.date(1, 1, 1).toordinal() * 86400
+_LAST_SECOND = datetime.date(9999, 12, 31).toordinal() * 86400 + 86399
+
+
+def edge_datetime(text, zone):
+    """A well-formed ISO text with an offset near the ends of the calendar: the naive local time in `zone`, or None when
+    that local time does not exist in years 1..9999 (then the text merely resembles a date and stays a string).
+    The instant is computed in integer seconds so that nothing overflows here; UNSPECIFIED when the instant itself lies
+    outside years 1..9999 by less than 16 hours (a zone offset could bring it back; not needed for the enumerated cells)."""
+    m = _EDGE_TEXT.match(text)
+    year, month, day, hour, minute, second = (int(m.group(i)) for i in range(1, 7))
+    off = m.group(7)
+    offset_minutes = 0 if off == 'Z' else (-1 if off[0] == '-' else 1) * (int(off[1:3]) * 60 + int(off[4:6]))
+    instant = datetime.date(year, month, day).toordinal() * 86400 + hour * 3600 + minute * 60 + second - offset_minutes * 60
+    if instant < _FIRST_SECOND or instant > _LAST_SECOND:
+        if instant < _FIRST_SECOND - 16 * 3600 or instant > _LAST_SECOND + 16 * 3600:
+            return None
+        return UNSPECIFIED
+    utc = (datetime.datetime(1, 1, 1) + datetime.timedelta(seconds=instant - _FIRST_SECOND)).replace(tzinfo=datetime.timezone.utc)
+    try:
+        return utc.astimezone(zoneinfo.ZoneInfo(zone)).replace(tzinfo=None)
+    except (OverflowError, ValueError):
+        return None
